@@ -12,23 +12,6 @@ namespace XalanModel.Containers
 namespace PL
 variable {α : Type}
 
-/-- the `std::list` contract of `splice(pos, *this, it)` -/
-def specMove (s : List α) (pidx sidx : Nat) : Option (List α) :=
-  match s[sidx]? with
-  | none => none
-  | some x =>
-    if pidx ≤ s.length then
-      let t := s.take sidx ++ s.drop (sidx + 1)
-      let k := if pidx ≤ sidx then pidx else pidx - 1
-      some (t.take k ++ x :: t.drop k)
-    else none
-
-/-- what the harness calls: both iterators are found by walking from `begin()` -/
-def pmove (h : PHeap α) (l : PL) (pidx sidx : Nat) : Option (PHeap α × PL) :=
-  match posAt h l pidx, (nodesOf h l)[sidx]? with
-  | some p, some t => splice h l p t
-  | _, _ => none
-
 theorem take_drop_self {β : Type} (s : List β) (i : Nat) (hi : i < s.length) :
     (s.take i ++ s.drop (i + 1)).take i ++ s[i] :: (s.take i ++ s.drop (i + 1)).drop i = s := by
   have hl : (s.take i).length = i := by simp; omega
